@@ -30,12 +30,13 @@ func init() {
 }
 
 type c08case struct {
-	profs    [][]byte // sources
-	bases    [][]byte
-	diffBase bool
-	flags    []string // options + command
-	web      string   // non-empty: web request instead of a command-line report
-	legacy   bool     // the source is a legacy text profile
+	profs      [][]byte // sources
+	bases      [][]byte
+	diffBase   bool
+	flags      []string // options + command
+	web        string   // non-empty: web request instead of a command-line report
+	legacy     bool     // the source is a legacy text profile
+	badSources int      // further sources that are missing (even) or garbage (odd)
 }
 
 func (c *c08case) String() string {
@@ -116,6 +117,9 @@ func genC08Case(t *simrt.Tape) *c08case {
 		}
 		c.diffBase = t.Bool(K, 50)
 	}
+	if t.Bool(K, 12) {
+		c.badSources = 1 + t.Choose(K, 3)
+	}
 	if t.Bool(K, 25) {
 		c.web = []string{"/top", "/peek?f=.", "/flamegraph", "/", "/?calltree=t", "/top?sort=cum", "/?g=lines", "/source?f=."}[t.Choose(K, 8)]
 	} else {
@@ -161,6 +165,7 @@ func genC08Case(t *simrt.Tape) *c08case {
 type c08out struct {
 	out    string
 	err    string
+	ui     string // everything printed to the terminal, grouped by task
 	res    simrt.Result
 	panics string
 }
@@ -169,6 +174,14 @@ func (c *c08case) install() (srcArgs []string) {
 	for i, p := range c.profs {
 		n := fmt.Sprintf("src%d.pb.gz", i)
 		simos.PutFile("/sim/cwd/"+n, p)
+		srcArgs = append(srcArgs, n)
+	}
+	for i := 0; i < c.badSources; i++ {
+		// sources that cannot be used: their error lines are output too
+		n := fmt.Sprintf("bad%d.pb.gz", i)
+		if i%2 == 1 {
+			simos.PutFile("/sim/cwd/"+n, []byte("this is not a profile\n"))
+		}
 		srcArgs = append(srcArgs, n)
 	}
 	var baseArgs []string
@@ -226,6 +239,9 @@ func (c *c08case) run(x *xctx, cfg simrt.Config) c08out {
 	if perr != nil {
 		o.err = perr.Error()
 	}
+	for _, l := range ui.all() {
+		o.ui += l.Text + "\n"
+	}
 	return o
 }
 
@@ -269,6 +285,9 @@ func runC08(x *xctx) *violation {
 			// Error texts are user-visible output too, but only report them as
 			// the separate class they are.
 			return violf("map-order-dependent-error", "%s: error %q under %s differs from %q under the canonical order", c, got.err, polName(pol), ref.err)
+		}
+		if got.ui != ref.ui {
+			return violf("map-order-dependent-messages", "%s: terminal messages under map policy %s differ from the canonical-order run: %s", c, polName(pol), firstDiff(got.ui, ref.ui))
 		}
 		if got.out != ref.out {
 			if d := os.Getenv("VERIF_DUMP"); d != "" {
